@@ -15,7 +15,7 @@ ap.add_argument("--verif", default="/verif")
 ap.add_argument("--bin", required=True)
 ap.add_argument("--vmon", required=True)
 ap.add_argument("--replay")
-ap.add_argument("--workers", type=int, default=int(os.environ.get("VERIF_WORKERS", "14")))
+ap.add_argument("--workers", type=int, default=int(os.environ.get("VERIF_WORKERS", "22")))
 a = ap.parse_args()
 START = time.time()
 col = vlib.Collector()
